@@ -126,7 +126,8 @@ def handle : Handler := fun op inp impl => do
     | .tr =>
       holds := holds ++ [("C03.bind_routes_only_while_held", routesOnlyWhileHeld pre post),
                          ("C05.bind_held_not_restored", heldNotRestored pre post),
-                         ("C18.bind_tr_finalizer_guard", trFinalizerGuard pre post),
+                         ("C05.bind_finalizing_unheld", finalizingEntryUnheld pre.tr post.tr),
+                         ("C18.bind_tr_finalizer_guard", trFinalizerGuard pre post ((jopt impl "requeue").bind (fun x => x.getBool?.toOption) |>.getD false)),
                          ("C18.bind_tr_keeps_holders", trKeepsHolders pre.tr post.tr)]
       tags := tags ++ [if routed pre.net post.net then "tr:routes" else if withdrawn pre.net post.net then "tr:withdraws" else "tr:nogw",
                        if pre.tr.isNone then "trivial" else "tr:present"]
@@ -137,7 +138,7 @@ def handle : Handler := fun op inp impl => do
         let w := roWorld pre e
         let pos := position w
         let reached := faultReached i e.bound w pre.tr f
-        holds := holds ++ [("C03.bind_rollout_waits", leavesInitHeld i e e' post.tr && addedOnlyWhenOpen i pre.tr post.tr),
+        holds := holds ++ [("C03.bind_rollout_waits", leavesInitHeld i e e' pre.tr post.tr && addedOnlyWhenOpen i pre.tr post.tr),
                            ("C05.bind_others_kept", othersKept i pre.tr post.tr),
                            ("C05.bind_finalise_finalizer_off", finaliseFinalizerOff i pos e e' post.tr),
                            ("C05.bind_finalise_waits_for_restore", finaliseWaitsForRestore i pos e e' post.tr),
